@@ -78,7 +78,7 @@ def gen_case(rng, tier, idx):
     if made is None:
         return {"kind": "skipped", "pattern": pat, "variant": var}
     cs, expect, regime = made
-    return {"kind": kind, "pattern": pat, "variant": var, "candles": cs, "expect": expect, "regime": regime, "k": rng.choice([-4, -1, 3, 8]),
+    return {"kind": kind, "pattern": pat, "variant": var, "candles": cs, "expect": expect, "regime": regime, "k": rng.choice([-16, -14, -4, -1, 3, 8, 20]),
             "shift": rng.choice([-16.0, 7.5, 1000.25, 65536.0]), "tail": rng.randint(0, 3)}
 
 
